@@ -197,3 +197,20 @@ impl MRule {
         MRule { std: MLtt::from_tz(a.std()), dst: MLtt::from_tz(a.dst()), start: MDay::from_tz(a.dst_start()), start_time: a.dst_start_time(), end: MDay::from_tz(a.dst_end()), end_time: a.dst_end_time() }
     }
 }
+
+impl MZone {
+    /// Read a zone back through its getters only (primitive values), so that comparisons of decoded zones do not lean on the crate's
+    /// own `PartialEq` impls.
+    pub fn from_tz(z: tz::timezone::TimeZoneRef<'_>) -> MZone {
+        MZone {
+            trans: z.transitions().iter().map(|t| (t.unix_leap_time(), t.local_time_type_index())).collect(),
+            types: z.local_time_types().iter().map(MLtt::from_tz).collect(),
+            leaps: z.leap_seconds().iter().map(|l| (l.unix_leap_time(), l.correction())).collect(),
+            trailer: match z.extra_rule() {
+                None => MTrailer::None,
+                Some(TransitionRule::Fixed(t)) => MTrailer::Fixed(MLtt::from_tz(t)),
+                Some(TransitionRule::Alternate(a)) => MTrailer::Alt(MRule::from_tz(a)),
+            },
+        }
+    }
+}
